@@ -152,3 +152,54 @@ func VerifC01Logic() {
 		vrt.Cover("value")
 	}
 }
+
+// litArr is an array literal of n symbolic ints.
+func litArr(n int) node.Type {
+	l := node.List{}
+	for i := 0; i < n; i++ {
+		l.Elems = append(l.Elems, lit())
+	}
+	return l
+}
+
+// VerifC01Arrays: arrays are values. An array built by concatenation (whose backing store has
+// spare capacity) is extended several times, sliced, passed to functions and collected in loops;
+// every array built on the way is observed at the end and must still hold what the semantics say.
+func VerifC01Arrays() {
+	p := NewPair()
+	na, nb := vrt.Choice("len-a", 4), vrt.Choice("len-b", 3)
+	var x node.Type = bin("+", litArr(na), litArr(nb))
+	for k := vrt.Choice("more-concats", vrt.Param("concats", 3)); k > 0; k-- {
+		x = bin("+", x, litArr(1))
+	}
+	p.Step(asg("x", x), true, "base")
+	ext := func(of string) node.Type { return bin("+", nm(of), litArr(1+vrt.Choice("ext-len", 2))) }
+	switch vrt.Choice("shape", 5) {
+	case 0: // two extensions of the same array
+		p.Step(asg("y", ext("x")), true, "first-extension")
+		p.Step(asg("z", ext("x")), true, "second-extension")
+	case 1: // through a function
+		p.steps("define", false, asg("f", fn(bin("+", nm("a"), node.List{Elems: []node.Type{nm("v")}}), "a", "v")))
+		p.Step(asg("y", call("f", nm("x"), lit())), true, "first-extension")
+		p.Step(asg("z", call("f", nm("x"), lit())), true, "second-extension")
+	case 2: // collected in a loop
+		p.Step(asg("y", node.List{}), true, "init")
+		p.Step(forl("d", call("fromto", ilit(0), ilit(3)), asg("y", bin("+", nm("y"), node.List{Elems: []node.Type{bin("+", nm("x"), node.List{Elems: []node.Type{nm("d")}})}}))), false, "collect")
+		p.Step(asg("z", ext("x")), true, "extension-after-loop")
+	case 3: // an extension of a slice of the array, then of the array
+		n := na + nb
+		lo := vrt.Choice("lo", n+1)
+		hi := lo + vrt.Choice("hi", n+1-lo)
+		p.Step(asg("y", bin("+", node.IndexFromTo{Ary: nm("x"), From: ilit(lo), To: ilit(hi)}, litArr(1))), true, "slice-extension")
+		p.Step(asg("z", ext("x")), true, "extension")
+	default: // an extension of an extension, twice
+		p.Step(asg("y", ext("x")), true, "first-extension")
+		p.Step(asg("z", ext("y")), true, "extension-of-extension")
+		p.Step(asg("w", ext("y")), true, "second-extension-of-extension")
+		p.Step(nm("z"), true, "first-extension-of-extension-kept")
+	}
+	p.Step(nm("x"), true, "base-kept")
+	p.Step(nm("y"), true, "first-kept")
+	p.Step(nm("z"), true, "second-kept")
+	vrt.Cover("done")
+}
